@@ -209,10 +209,28 @@ func init() {
 		if i.env.file(path) == nil {
 			return tuple{iface{}, i.pathError("stat", path, enoent)}
 		}
-		// an opaque non-nil FileInfo: *os.fileStat zero value
+		// a *os.fileStat carrying name, size and the directory bit
+		fl := i.env.file(path)
 		osp := i.prog.ImportedPackage("os")
-		var cell value = zero(osp.Type("fileStat").Type())
-		return tuple{iface{t: types.NewPointer(osp.Type("fileStat").Type()), v: &cell}, iface{}}
+		ft := osp.Type("fileStat").Type()
+		var cell value = zero(ft)
+		st := ft.Underlying().(*types.Struct)
+		sv := cell.(structure)
+		for k := 0; k < st.NumFields(); k++ {
+			switch st.Field(k).Name() {
+			case "size":
+				sv[k] = int64(len(fl.data))
+			case "name":
+				sv[k] = path
+			case "mode":
+				if fl.isDir {
+					sv[k] = uint32(1<<31 | 0o755)
+				} else {
+					sv[k] = uint32(0o644)
+				}
+			}
+		}
+		return tuple{iface{t: types.NewPointer(ft), v: &cell}, iface{}}
 	}
 	externals["os.UserHomeDir"] = func(fr *frame, a []value) value { return tuple{"/home/u", iface{}} }
 	externals["os.UserConfigDir"] = func(fr *frame, a []value) value { return tuple{"/home/u/.config", iface{}} }
